@@ -14,4 +14,4 @@ one() {
   rm -rf $d
 }
 export -f one
-for d in "$@"; do ls $d/R*.patch; done | xargs -P 16 -I{} bash -c 'one {}' | sort
+for d in "$@"; do ls $d/R*.patch; done | xargs -P ${JOBS:-16} -I{} bash -c 'one {}' | sort
